@@ -246,6 +246,13 @@ class CFG(object):
             if expr.value:
                 return stubs, []
             return [], stubs
+        if isinstance(expr, ast.IfExp):
+            # (A if T else B) as a condition: T decides which of A, B is
+            # tested
+            tru_t, fls_t = self._cond(expr.test, stubs, frames)
+            tru_a, fls_a = self._cond(expr.body, tru_t, frames)
+            tru_b, fls_b = self._cond(expr.orelse, fls_t, frames)
+            return tru_a + tru_b, fls_a + fls_b
         body = getattr(expr, '_inline_body', None)
         if body is not None:
             frame = _InlineCond()
